@@ -47,7 +47,9 @@ def _arange(x, size, start, stop, step, arange_dtype, block_id=None):
     i = block_id[0]
     blockstart = start + (i * size * step)
     blockstop = start + ((i + 1) * size * step)
-    return nxp.arange(blockstart, min(blockstop, stop), step, dtype=arange_dtype)
+    # the last block ends at stop, which is below blockstop for a positive step and above it for a negative one
+    blockstop = min(blockstop, stop) if step > 0 else max(blockstop, stop)
+    return nxp.arange(blockstart, blockstop, step, dtype=arange_dtype)
 
 
 def asarray(
